@@ -709,9 +709,44 @@ TOKEN_REGEX_NAMES = ['double_closed_pocket_pair_range_regex', 'double_rank_pair_
                      'single_pocket_pair_regex', 'single_rank_pair_regex', 'single_card_pair_regex']
 
 
+_EXPANDED = {}
+
+
+def expanded_source(repo):
+    """the crate after macro expansion (`rustc -Zunpretty=expanded` of the nightly toolchain, offline): `concat!` and
+    `macro_rules!` fragments become plain string literals.  Used only when a literal cannot be read from the source text."""
+    if repo in _EXPANDED:
+        return _EXPANDED[repo]
+    import subprocess
+    env = dict(os.environ, CARGO_NET_OFFLINE='true',
+               CARGO_TARGET_DIR=os.path.join(os.path.dirname(os.path.dirname(os.path.abspath(__file__))), 'work', 'expand_target'))
+    try:
+        p = subprocess.run(['cargo', '+nightly', 'rustc', '--lib', '--offline', '--', '-Zunpretty=expanded'], cwd=repo, env=env,
+                           stdout=subprocess.PIPE, stderr=subprocess.DEVNULL, timeout=600)
+        out = p.stdout.decode('utf-8', 'replace') if p.returncode == 0 else None
+    except Exception:
+        out = None
+    _EXPANDED[repo] = out
+    return out
+
+
 def gen_token(repo):
-    s = load(repo, 'src/hand_range/hand_range_token.rs')
-    body = block_after(s, r'impl\s+FromStr\s+for\s+HandRangeToken', 'FromStr for HandRangeToken')
+    try:
+        return gen_token_from(repo, load(repo, 'src/hand_range/hand_range_token.rs'))
+    except ExtractError as first:
+        # the literals may be assembled by macros (`concat!`, `macro_rules!`): read them from the macro-expanded crate
+        exp = expanded_source(repo)
+        if not exp:
+            raise first
+        try:
+            res = gen_token_from(repo, strip_test_modules(strip_comments(exp)), expanded=True)
+        except ExtractError:
+            raise first
+        return res
+
+
+def gen_token_from(repo, s, expanded=False):
+    body = block_after(s, r'impl\s+(?:(?:::)?[\w:]*::)?FromStr\s+for\s+HandRangeToken', 'FromStr for HandRangeToken')
     lits = []
     for nm in TOKEN_REGEX_NAMES:
         pre = r'let\s+%s\s*=\s*Regex::new\(\s*' % nm
@@ -737,7 +772,8 @@ def gen_token(repo):
             else:
                 lit += raw[i]; i += 1
         lits.append(lit)
-    allre = re.findall(r'Regex::new', body)
+    # (in macro-expanded source the macro definitions themselves are still printed: count the bindings, not the mentions)
+    allre = re.findall(r'\blet\s+\w+\s*=\s*Regex::new', body) if expanded else re.findall(r'Regex::new', body)
     if len(allre) != 7:
         raise ExtractError('expected exactly 7 Regex::new in HandRangeToken::from_str')
     # the control flow after the regex definitions, whitespace-normalised, hashed: the hand-written
